@@ -827,13 +827,24 @@ def gen_hist_one(r, max_len):
     return c
 
 
-BIG = 1 << 40
+BIG = 1 << 36
 
 
 def bigify(c):
-    """the same configuration with every target value raised by 2^40 (absolute residuals: exact in binary64)"""
+    """the same configuration with every target value raised by 2^36 and absolute residuals.  Still exact in binary64:
+    sums stay below 2^36 * 4 * 144 < 2^46 and carry at most 3 fractional bits (gains in halves - the nearly equal vectors
+    of a history are rounded to halves -, biases in quarters, weights down to 1/2)."""
     d = dict(c, ff="abs")
     d["targets"] = [[[[None if v is None else v + BIG for v in row] for row in pl] for pl in t] for t in c["targets"]]
+    if "ops" in c:
+        ids, ops = {}, []
+        for o in c["ops"]:
+            if o["op"] == "nop":
+                ops.append(o)
+                continue
+            g = Fraction(int(Fraction(o["gain"]) * 2), 2)
+            ops.append(dict(o, gain=g, id=ids.setdefault((g, o["bias"]), len(ids))))
+        d["ops"] = ops
     return d
 
 
@@ -1512,7 +1523,8 @@ def run(ctx: Ctx):
                         value=(int(o["q"][0]) / int(o["q"][1]) if o.get("o") == "val" else None)))
     for c, o in ck_pairs[:2]:
         ctx.sample(dict(checker=c, observed=o))
-    if ctx.broken and not new_violations(ctx):
+    # VERIF_C11_SEARCH=1 runs the deeper search unconditionally (used to check that it raises no alarm on a sound tree)
+    if (ctx.broken and not new_violations(ctx)) or __import__("os").environ.get("VERIF_C11_SEARCH"):
         search(ctx)
     order_violations(ctx)
 
@@ -1528,7 +1540,7 @@ def search(ctx: Ctx):
     if not new_violations(ctx):
         leg_hist(ctx, gen_hist(ctx.rng("shist"), 120, 14), tag="shist")
     if not new_violations(ctx):
-        # very large figures of merit (targets near 2^40, exact in binary64 with the absolute residuals): thresholds,
+        # very large figures of merit (targets near 2^36, exact in binary64 with the absolute residuals): thresholds,
         # caps and guards on the running sum that ordinary values never reach
         r = ctx.rng("sbig")
         fits = [bigify(c) for c in gen_fit(r, 60, flagged_share=0.0) if py_verdict(c)[0] == "accept" and not known_classes(c)]
